@@ -497,6 +497,121 @@ impl<const N: usize> Subscriptions<N> {
     }
 }
 
+/// Public wrappers around the crate-private table API, for the out-of-tree verification harness.
+#[cfg(feature = "verif")]
+impl<const N: usize> Subscriptions<N> {
+    #[allow(clippy::too_many_arguments)]
+    pub fn verif_add<'a, 's, B>(
+        &'s self,
+        now: Instant,
+        fabric_idx: NonZeroU8,
+        peer_node_id: u64,
+        min_int_secs: u16,
+        max_int_secs: u16,
+        event_numbers_watermark: EventNumber,
+        buffer: B::Buffer<'a>,
+        buffers: &'s SubscriptionsBuffers<'a, B, N>,
+    ) -> Option<ReportContext<'a, 's, B, N>>
+    where
+        B: Buffers<IMBuffer> + 'a,
+    {
+        self.add(
+            now,
+            fabric_idx,
+            peer_node_id,
+            min_int_secs,
+            max_int_secs,
+            event_numbers_watermark,
+            buffer,
+            buffers,
+        )
+    }
+
+    pub fn verif_report<'a, 's, B>(
+        &'s self,
+        now: Instant,
+        event_numbers_watermark: EventNumber,
+        buffers: &'s SubscriptionsBuffers<'a, B, N>,
+    ) -> Option<ReportContext<'a, 's, B, N>>
+    where
+        B: Buffers<IMBuffer> + 'a,
+    {
+        self.report(now, event_numbers_watermark, buffers)
+    }
+
+    pub fn verif_remove<B, F>(&self, buffers: &SubscriptionsBuffers<'_, B, N>, f: F) -> bool
+    where
+        B: Buffers<IMBuffer>,
+        F: FnMut(&Subscription) -> Option<&'static str>,
+    {
+        self.remove(buffers, f)
+    }
+
+    pub fn verif_notify_attr_changed(&self, endpoint_id: EndptId, cluster_id: ClusterId, attr_id: AttrId) {
+        self.notify_attr_changed(endpoint_id, cluster_id, attr_id)
+    }
+
+    pub fn verif_notify_cluster_changed(&self, endpoint_id: EndptId, cluster_id: ClusterId) {
+        self.notify_cluster_changed(endpoint_id, cluster_id)
+    }
+
+    pub fn verif_notify_endpoint_changed(&self, endpoint_id: EndptId) {
+        self.notify_endpoint_changed(endpoint_id)
+    }
+
+    pub fn verif_purge_reported_changes(&self) {
+        self.purge_reported_changes()
+    }
+
+    pub fn verif_next_report_at<'a, B>(
+        &self,
+        event_numbers_watermark: EventNumber,
+        buffers: &SubscriptionsBuffers<'a, B, N>,
+    ) -> Instant
+    where
+        B: Buffers<IMBuffer> + 'a,
+    {
+        self.next_report_at(event_numbers_watermark, buffers)
+    }
+
+    /// Read-only projection: table rows `(id, max_seen_attr_change_id, reported_at, retry_at,
+    /// fail_count)`, changed-attr entries `(endpoint, cluster, attr, change_id)`, the change-id
+    /// watermark and whether a report is in flight.
+    #[allow(clippy::type_complexity)]
+    pub fn verif_state(
+        &self,
+    ) -> (
+        crate::utils::storage::Vec<(u32, u64, u64, u64, u8), N>,
+        crate::utils::storage::Vec<(u16, u32, u32, u64), MAX_CHANGED_ATTRS>,
+        u64,
+        bool,
+    ) {
+        self.state.lock(|state| {
+            let state = state.borrow();
+            let mut rows = crate::utils::storage::Vec::new();
+            for s in &state.subscriptions {
+                let _ = rows.push((
+                    s.ids.id,
+                    s.max_seen_attr_change_id,
+                    s.reported_at.as_ticks(),
+                    s.retry_at.as_ticks(),
+                    s.fail_count,
+                ));
+            }
+            let mut changes = crate::utils::storage::Vec::new();
+            for c in &state.changed_attrs.entries {
+                let _ = changes.push((c.endpoint, c.cluster, c.attr, c.change_id));
+            }
+            (
+                rows,
+                changes,
+                state.changed_attrs.watermark(),
+                state.reporting.is_some(),
+            )
+        })
+    }
+}
+
 /// Subscription persistence: the whole table is mirrored to (and resumed from)
 /// the key-value store, one record per subscription. Gated as a unit so that a
 /// device that does not want persistence drops it — and the TLV serialization
